@@ -5,12 +5,30 @@ VERIF = os.path.dirname(os.path.dirname(os.path.abspath(__file__)))
 NOTE = ('Trusted base: Coq 8.16.1 kernel, stdlib only, every property theorem closed under the global context (Print Assumptions re-run on every check); '
         'srcgen.py translator for the regenerated leaf definitions; ExtrOcamlBasic extraction + OCaml driver for the executable model; '
         'Python glue of the correspondence; clingo itself is modelled, not verified (see DESIGN.md section 9).')
+S4 = ' Tie: end-to-end correspondence of the real pipeline (telingo + clingo, one incremental run per program) with the oracle EXTRACTED from the Coq specification; on failure the shrunk program is the replay.'
 CLAIMED = {
-    'C08': dict(text='Proof (Coq): the loop condition, part selection, assumption filter, call order and option defaults are REGENERATED from '
-                     'telingo/__init__.py on every run; theorems C08_trace/horizons/at_most_imax/at_least_min/stop_reason/no_early_stop/default_shortest '
-                     'hold for every option triple, every result sequence, every part list and atom base (induction on the number of iterations). '
-                     'Tie: regeneration + exhaustive differential run of telingo.imain on a scripted fake Control against the extracted model.',
+    'C01': dict(text='Proof (Coq): C01_core_exact - for every program of the ground core fragment and every horizon h the equilibrium models of the program accumulated by steps 0..h (model of transform + part selection + grounding) are exactly the temporal stable models over traces of length h+1; the part selection is the definition regenerated from imain.' + S4 +
+                     ' Gringo simplification and non-ground programs are outside the theorem (C06).', ref='8 (C01)', technique='Coq proof (HT/THT_f, induction over steps) + extracted-oracle differential testing'),
+    'C02': dict(text='Proof (Coq): C02_window_exact (temporary/permanent copies of look-ahead constraints, any depth, any h incl. h < n: no stale and no missing instance), C02_future_aux_elim_* (auxiliary __future atoms are a definitional extension), tied to the regenerated assumption filter and part selection.' + S4 +
+                     ' Partial: the composition "future heads + constraints + core rules in one run" is proved per mechanism, not as one end-to-end theorem.', ref='8 (C02)', technique='Coq proof per mechanism + extracted-oracle differential testing'),
+    'C03': dict(text='Proof (Coq): executable model of Theory.translate for the operator core {atom,~,&,>,>:,>?,<?} with invariant preservation across horizons, value = LTLf (C03_value_is_LTLf, C03_step) and existence+uniqueness of the Tseitin extension (C03_definitional); for the FULL operator set the semantic-layer theorem C03_equations_determine_LTLf.' + S4 +
+                     ' (witness atoms at every state of every answer set vs extracted TEL.lsat, all operators, shared sub-formulas). Partial: the remaining operators are tied by the correspondence only.', ref='8 (C03), appendix A', technique='Coq refinement proof (reduced operator set) + extracted LTLf oracle on every state of every answer set'),
+    'C04': dict(text='Proof (partial, Coq): C04_shift_origin_classical and C04_shift_is_consequence over a model of ShiftFormula (soundness direction: every emitted clause is a THT_f consequence of the head formula). Completeness is NOT proved; it is covered by the correspondence with Oracle.tsm_enum only (a test).' + S4 +
+                     ' Open known findings F9, F10 (see known_findings.json): their input classes are excluded from generation while open.', ref='8 (C04)', technique='Coq proof of the key soundness lemma + extracted THT_f stable-model oracle'),
+    'C05': dict(text='Proof (Coq): C05_diamond / C05_dia_formula / C05_box_formula: the executable continuation-style evaluator whose cases are those of DiamondFormula/BoxFormula.translate_* equals the relational LDLf semantics for ALL paths; runs stay inside the trace.' + S4 +
+                     ' (witness atoms vs extracted LDL.dsat, normal-form paths). Partial: the translation into Boolean/next formulas inside the theory is tied by the correspondence, not by a refinement proof.', ref='8 (C05)', technique='Coq proof of LDLf evaluator = relational semantics + extracted oracle on every state'),
+    'C08': dict(text='Proof (Coq): the loop condition, part selection, assumption filter, call order and option defaults are REGENERATED from telingo/__init__.py on every run; C08_trace/horizons/at_most_imax/at_least_min/stop_reason/no_early_stop/default_shortest hold for every option triple, result sequence, part list and atom base. Tie: regeneration + exhaustive differential run of telingo.imain on a scripted fake Control against the extracted model.',
                 ref='8 (C08)', technique='Coq proof over regenerated loop decisions + exhaustive model/implementation call-trace correspondence'),
+    'C09': dict(text='Proof (Coq) for the ground core fragment: C09_time_in_range, C09_initial_marker, C09_final_marker follow from the characterisation of the stable models of the incremental run; C09_future_atoms_determined from the auxiliary-atom elimination. For arbitrary (non-ground, theory) programs and the shipped examples the four facts are checked on ALL atoms of the real answer sets (the theorem statement is the oracle).',
+                ref='8 (C09)', technique='Coq proof (core fragment) + well-formedness oracle on real answer sets incl. shipped examples'),
+    'C12': dict(text='Proof (Coq) for the core fragment: C12_order_dup_split / C12_tsm_same - the accumulated program is a set of instances, so reordering, duplication and splitting statements cannot change the stable models. Theory atoms / auxiliary numbering: metamorphic correspondence on the real pipeline (permutation, duplication, shared sub-formulas, 2-3 input files).',
+                ref='8 (C12)', technique='Coq proof (set semantics of the accumulated program) + metamorphic testing of the pipeline'),
+    'C13': dict(text='Proof (Coq): C13_frozen_choice (auxiliary choice atoms fixed by constraints never take part in minimisation) and C13_unique_extension (existence and uniqueness of the auxiliary assignment, operator core). Tie: four-way metamorphic comparison on the real pipeline (P, P+observer, P+constraint, P+negated constraint), tel and del formulas, with multiplicity.',
+                ref='8 (C13)', technique='Coq proof (frozen choice + unique definitional extension) + metamorphic testing'),
+    'C16': dict(text='Proof (Coq): every documented abbreviation as a THT_f law (heads and bodies), the classical dualities and the mirror symmetry as LTLf laws, and congruence (a law may be applied at any sub-formula position). Tie: a law applied at a random position of generated body/head formulas must not change the answer sets of the real pipeline (and reversed traces for the mirror law). What create_formula BUILDS for each abbreviation is tied by C03/C04 correspondences.',
+                ref='8 (C16)', technique='Coq proofs of the laws + congruence; metamorphic law substitution on the pipeline'),
+    'C17': dict(text='Proof (Coq): C17_prefix_closed - for programs with past-only bodies and present-only heads every temporal stable model of length h+2 cut to h+1 states is a temporal stable model of length h+1 (all h). Tie: consecutive horizons of one incremental run on random past-only programs and the shipped planning domains without final part.',
+                ref='8 (C17)', technique='Coq proof at the specification level + prefix oracle on consecutive horizons'),
 }
 PENDING = {}
 def main():
